@@ -158,7 +158,7 @@ impl<'c, KD: Kind, const N: usize> MapEng<'c, KD, N> {
                             let rest: Vec<(i16, u32, i64, u32)> = before
                                 .iter()
                                 .filter(|(k, _)| !yielded.iter().any(|y| y.raw == **k as i16))
-                                .map(|(k, e)| (*k as i16, if KD::TRACKED { e.kid } else { NOID }, e.val as i64, if KD::TRACKED { e.vid } else { NOID }))
+                                .map(|(k, e)| (*k as i16, if KD::IDENT { e.kid } else { NOID }, e.val as i64, if KD::IDENT { e.vid } else { NOID }))
                                 .collect();
                             let r = check_multiset(&po, &rest, true);
                             cx.chk(P10, r.is_ok(), "adaptor", || format!("drain after {} of {n} items: {}", yielded.len(), r.clone().err().unwrap_or_default()));
@@ -179,8 +179,8 @@ impl<'c, KD: Kind, const N: usize> MapEng<'c, KD, N> {
                     cx.chk(P10, !dup, "repeat", || format!("drain yielded key {} twice", y.raw));
                     match e {
                         Some(e) => {
-                            cx.chk(P10, e.val as i64 == y.val && (!KD::TRACKED || e.vid == y.vid), "yield", || format!("drain yielded key {} with value {} but the map held {}", y.raw, y.val, e.val));
-                            if KD::TRACKED {
+                            cx.chk(P10, e.val as i64 == y.val && (!KD::IDENT || e.vid == y.vid), "yield", || format!("drain yielded key {} with value {} but the map held {}", y.raw, y.val, e.val));
+                            if KD::IDENT {
                                 cx.chk(P12, e.kid == y.kid, "exposed-key-identity", || format!("drain yielded key object #{}, stored was #{}", y.kid, e.kid));
                             }
                         }
@@ -418,9 +418,9 @@ impl<'c, KD: Kind, const N: usize> MapEng<'c, KD, N> {
                         match model0.get(&(y.raw as u8)) {
                             Some(e) => {
                                 if y.val >= 0 {
-                                    cx.chk(P09, e.val as i64 == y.val && (!KD::TRACKED || e.vid == y.vid), "yield", || format!("{name} yielded key {} with value {}, stored is {}", y.raw, y.val, e.val));
+                                    cx.chk(P09, e.val as i64 == y.val && (!KD::IDENT || e.vid == y.vid), "yield", || format!("{name} yielded key {} with value {}, stored is {}", y.raw, y.val, e.val));
                                 }
-                                if KD::TRACKED {
+                                if KD::IDENT {
                                     cx.chk(P12.and(Prop::C09), e.kid == y.kid, "exposed-key-identity", || format!("{name} yielded key object #{}, stored is #{}", y.kid, e.kid));
                                 }
                             }
@@ -567,11 +567,11 @@ impl<'c, KD: Kind, const N: usize> MapEng<'c, KD, N> {
                     if want_fmt {
                         let rest: Vec<(u8, u32)> = before
                             .iter()
-                            .filter(|(k, e)| !yielded.iter().any(|y| (y.raw >= 0 && y.raw == **k as i16) || (y.raw < 0 && KD::TRACKED && y.vid == e.vid)))
+                            .filter(|(k, e)| !yielded.iter().any(|y| (y.raw >= 0 && y.raw == **k as i16) || (y.raw < 0 && KD::IDENT && y.vid == e.vid)))
                             .map(|(k, e)| (*k, e.val))
                             .collect();
                         // for untracked into_values the yielded values identify the entries (values are unique per step)
-                        let rest: Vec<(u8, u32)> = if $proj == 2 && !KD::TRACKED {
+                        let rest: Vec<(u8, u32)> = if $proj == 2 && !KD::IDENT {
                             // multiset subtraction: each yielded value accounts for one entry
                             let mut all: Vec<(u8, u32)> = before.iter().map(|(k, e)| (*k, e.val)).collect();
                             for y in yielded.iter() {
@@ -656,7 +656,7 @@ impl<'c, KD: Kind, const N: usize> MapEng<'c, KD, N> {
                                         let pos = if y.raw >= 0 {
                                             pool.iter().position(|(k, _)| *k as i16 == y.raw)
                                         } else {
-                                            pool.iter().position(|(_, e)| e.val as i64 == y.val && (!KD::TRACKED || e.vid == y.vid))
+                                            pool.iter().position(|(_, e)| e.val as i64 == y.val && (!KD::IDENT || e.vid == y.vid))
                                         };
                                         if let Some(p) = pos {
                                             pool.remove(p);
@@ -665,8 +665,8 @@ impl<'c, KD: Kind, const N: usize> MapEng<'c, KD, N> {
                                     let rest: Vec<(i16, u32, i64, u32)> = pool
                                         .iter()
                                         .map(|(k, e)| {
-                                            let kk = (*k as i16, if KD::TRACKED { e.kid } else { NOID });
-                                            let vv = (e.val as i64, if KD::TRACKED { e.vid } else { NOID });
+                                            let kk = (*k as i16, if KD::IDENT { e.kid } else { NOID });
+                                            let vv = (e.val as i64, if KD::IDENT { e.vid } else { NOID });
                                             match $proj {
                                                 0 => (kk.0, kk.1, vv.0, vv.1),
                                                 1 => (kk.0, kk.1, -1, NOID),
@@ -702,9 +702,9 @@ impl<'c, KD: Kind, const N: usize> MapEng<'c, KD, N> {
                         match before.get(&(y.raw as u8)) {
                             Some(e) => {
                                 if y.val >= 0 {
-                                    cx.chk(P10, e.val as i64 == y.val && (!KD::TRACKED || e.vid == y.vid), "yield", || format!("{name} yielded key {} with value {}, the map held {}", y.raw, y.val, e.val));
+                                    cx.chk(P10, e.val as i64 == y.val && (!KD::IDENT || e.vid == y.vid), "yield", || format!("{name} yielded key {} with value {}, the map held {}", y.raw, y.val, e.val));
                                 }
-                                if KD::TRACKED {
+                                if KD::IDENT {
                                     cx.chk(P12, e.kid == y.kid, "exposed-key-identity", || format!("{name} yielded key object #{}, stored was #{}", y.kid, e.kid));
                                 }
                             }
@@ -713,7 +713,7 @@ impl<'c, KD: Kind, const N: usize> MapEng<'c, KD, N> {
                             }
                         }
                     } else {
-                        let hit = before.values().filter(|e| e.val as i64 == y.val && (!KD::TRACKED || e.vid == y.vid)).count();
+                        let hit = before.values().filter(|e| e.val as i64 == y.val && (!KD::IDENT || e.vid == y.vid)).count();
                         let dup = yielded[..i].iter().filter(|z| z.val == y.val && z.vid == y.vid).count();
                         cx.chk(P10, hit > dup, "yield", || format!("{name} yielded value {} which the map did not hold (or yielded it twice)", y.val));
                     }
